@@ -49,13 +49,13 @@ const T4: u64 = 10 * 21 * 36 * 55;
 fn families(t: Tier) -> Vec<(&'static str, u64)> {
     vec![
         ("topo", 3 * (T1 + T2 + T3 + t.n(0, T4))),
-        ("rand", t.n(15_000, 400_000)),
-        ("mixed", t.n(15_000, 400_000)),
-        ("toggles", t.n(12_000, 300_000)),
+        ("rand", t.n(15_000, 800_000)),
+        ("mixed", t.n(15_000, 800_000)),
+        ("toggles", t.n(12_000, 600_000)),
         ("selfchain", t.n(204, 2_040)),
         ("diamond", t.n(300, 6_000)),
         ("fanin", t.n(300, 6_000)),
-        ("builtin", t.n(2_000, 100_000)),
+        ("builtin", t.n(2_000, 200_000)),
     ]
 }
 fn floors(_t: Tier) -> Vec<(&'static str, u64)> {
